@@ -975,6 +975,7 @@ def run_watchdog(case):
     remaining = execute = 0
     trig_d = pending = 0
     wait_run = 0
+    wait_prev = 0
     timeouts = feeds_running = saturated = 0
     exp = []
     strict = case.get("probe")
@@ -996,15 +997,21 @@ def run_watchdog(case):
         rmode = (ctrl >> 16) & 1
         trig = enable & execute
         wait = enable & execute & rmode
-        rst_exp = int(wait_run >= delay)           # WaitTimer(reset_delay): wait high during the last `delay` cycles
-        if strict == "delay0":
-            # documented: "Reset SoC when watchdog times out" - no reset request unless the time-out condition holds
-            if probe.trace[c][4] and not wait:
-                return bad("watchdog-reset-without-timeout",
-                           "Watchdog(reset_delay=%d, crg_rst=Signal()): cycle %d crg_rst=1 while enable=%d, timed out=%d, reset mode=%d" % (
-                               delay, c, enable, execute, rmode), key="c19:watchdog:reset-delay-0", cycles=cyc)
-        exp.append((remaining, trig, pending, pending & ien, rst_exp))
+        # "Reset SoC when watchdog times out": the request must be up once the time-out condition (enabled, expired, reset
+        # mode) has been held for reset_delay cycles and still holds, and must be down unless it was held during the last
+        # reset_delay cycles (reset_delay = 0: unless it holds now or held in the previous cycle); the cycle in which the
+        # condition has just gone away is left open
+        got_rst = probe.trace[c][4]
+        must1 = bool(wait) and wait_run >= delay
+        must0 = (wait_run < delay) if delay >= 1 else (not wait and not wait_prev)
+        if (must1 and not got_rst) or (must0 and got_rst):
+            return bad("watchdog-crg-reset",
+                       "Watchdog(width=%d, reset_delay=%d, crg_rst=Signal()): cycle %d crg_rst=%d; enable=%d, timed out=%d, reset mode=%d, "
+                       "condition held for the last %d cycles" % (width, delay, c, got_rst, enable, execute, rmode, wait_run),
+                       key="c19:watchdog:reset-delay-0" if (delay == 0 and must0) else "c19:watchdog:crg-reset", cycles=cyc)
+        exp.append((remaining, trig, pending, pending & ien, got_rst))
         wait_run = wait_run + 1 if wait else 0
+        wait_prev = wait
         npend = 0 if clr else pending
         if trig and not trig_d:
             npend = 1
@@ -1030,7 +1037,7 @@ def run_watchdog(case):
                    "irq, crg_rst) trace[%d:%d] got %r expected %r" % (width, delay, i, names[j], probe.trace[i][j], exp[i][j], lo, i + 1,
                                                                         probe.trace[lo:i + 1], exp[lo:i + 1]),
                    key="c19:watchdog:" + names[j], cls=cls, cycles=cyc)
-    if not probe.trace[-1][4] and strict != "delay0":
+    if not probe.trace[-1][4]:
         return bad("watchdog-finish", "Watchdog: the final time-out with reset mode did not raise crg_rst", key="c19:watchdog:crg-reset",
                    cls=cls, cycles=cyc)
     if feeds_running:
